@@ -448,7 +448,7 @@ impl Property for C12 {
     type Case = Case;
     const ID: &'static str = "C12";
     fn cases(tier: Tier) -> u64 {
-        tier.pick(30_000, 600_000)
+        tier.pick(90_000, 1_000_000)
     }
     fn strategy(tier: Tier) -> BoxedStrategy<Case> {
         let n = tier.pick(30usize, 60usize);
